@@ -20,15 +20,26 @@ use std::io;
 use std::sync::atomic::{AtomicU64, Ordering};
 use std::time::Duration;
 
+static REENTER: std::sync::atomic::AtomicBool = std::sync::atomic::AtomicBool::new(false);
+
 static EVALS: [AtomicU64; 16] = [const { AtomicU64::new(0) }; 16];
+/// order stamp of the (last) evaluation of each argument: the explicit chain evaluates key, value, then the tag
+/// pairs left to right - a macro that sends "the same line" must do the same when arguments share state
+static STAMPS: [AtomicU64; 16] = [const { AtomicU64::new(0) }; 16];
+static CLOCK: AtomicU64 = AtomicU64::new(1);
 
 fn bump<T>(i: usize, v: T) -> T {
     EVALS[i].fetch_add(1, Ordering::Relaxed);
+    STAMPS[i].store(CLOCK.fetch_add(1, Ordering::Relaxed), Ordering::Relaxed);
     v
 }
 
 fn take_evals(n: usize) -> Vec<u64> {
     (0..n).map(|i| EVALS[i].swap(0, Ordering::Relaxed)).collect()
+}
+
+fn take_stamps(n: usize) -> Vec<u64> {
+    (0..n).map(|i| STAMPS[i].swap(0, Ordering::Relaxed)).collect()
 }
 
 struct Ctx {
@@ -46,7 +57,14 @@ struct Ctx {
 impl Ctx {
     fn violation(&mut self, rule: &str, class: &str, detail: String, trace: Json) {
         let replay_args = self.args.to_vec_with(&[]);
-        self.rep.violation(Violation { property: "C17".into(), rule: rule.into(), class: class.into(), detail, replay_args, trace });
+        // the macro call form of other properties: a run with --report-as C02 reports what the reference formatter finds in
+        // the macro's line under C02 (numerals reach the wire without loss, whatever the call form) and nothing else
+        let as_prop = self.args.str("report-as", "C17");
+        if as_prop != "C17" && !(rule == "reference-formatter" || class == "line-differs-from-chain") {
+            self.rep.obs("other_property_rule_hits", 1);
+            return;
+        }
+        self.rep.violation(Violation { property: as_prop, rule: rule.into(), class: class.into(), detail, replay_args, trace });
     }
     /// Script the sink outcome for the next emit according to the configured behaviour. Returns the injected error, if any.
     fn script(&mut self) -> Option<(io::ErrorKind, String)> {
@@ -192,6 +210,13 @@ macro_rules! pairs {
                 }
             });
             let mevals = take_evals(2 + 2 * arity);
+            let mstamps = take_stamps(2 + 2 * arity);
+            if mres.is_ok() && !$cx.unset && mevals.iter().all(|n| *n == 1) && mstamps.windows(2).any(|w| w[0] >= w[1]) {
+                let st = format!("{:?}", mstamps);
+                $cx.violation("same-as-explicit-chain", "argument-evaluation-order", format!("{}: arguments were not evaluated in the order key, value, tag pairs left to right (order stamps {})", stringify!($mac), st), Json::Null);
+            } else if mres.is_ok() && !$cx.unset {
+                $cx.rep.obs("argument_order_checks", 1);
+            }
             let memits = $cx.sink.emits_from(eb);
             let mhandled = $cx.hlog.from(hb);
             $cx.sink.log.lock().unwrap().script.clear();
@@ -317,8 +342,13 @@ fn main() {
     if !unset {
         let client = build_client(&cfg, sink.clone(), if handler { Some(hlog.clone()) } else { None });
         set_global_default(client);
+        *HANDLER_EXTRA.lock().unwrap() = Some(std::sync::Arc::new(|| {
+            if REENTER.swap(false, Ordering::SeqCst) {
+                statsd_count!("sent.from.handler", 1);
+            }
+        }));
     }
-    let mut cx = Ctx { rep: Report::new("macro_driver", "C17"), cfg, sink, hlog, handler, sink_mode, unset, args: args.clone(), step: 0 };
+    let mut cx = Ctx { rep: Report::new("macro_driver", &args.str("report-as", "C17")), cfg, sink, hlog, handler, sink_mode, unset, args: args.clone(), step: 0 };
     if is_global_default_set() == unset {
         cx.violation("panic-iff-unset", "is_global_default_set-wrong", format!("is_global_default_set() = {} in a process where the client was {}set", is_global_default_set(), if unset { "not " } else { "" }), Json::Null);
     }
@@ -352,6 +382,25 @@ fn main() {
         if cx.rep.violation_count >= 8 {
             break;
         }
+    }
+    // a macro used from inside the global client's own error handler (a common way to count send failures): the nested
+    // macro is an ordinary macro call and must send
+    if !unset && args.flag("reentrant-handler") {
+        let before = cx.sink.emit_count();
+        REENTER.store(true, Ordering::SeqCst);
+        cx.sink.push_script(SinkOutcome::Refuse(io::ErrorKind::BrokenPipe, "for-the-handler".into()));
+        let r = panics::guard(|| {
+            statsd_meter!("outer.metric", 9u64);
+        });
+        REENTER.store(false, Ordering::SeqCst);
+        let emitted = cx.sink.emits_from(before);
+        cx.rep.obs("macro_inside_handler_checks", 1);
+        let nested_ok = emitted.iter().any(|(s, ok)| *ok && s.contains("sent.from.handler"));
+        if r.is_err() || !nested_ok {
+            cx.violation("same-as-explicit-chain", "macro-inside-handler-did-not-send", format!("a macro invoked from the client's error handler did not send (result {:?}, emits {:?})", r, emitted), Json::Null);
+        }
+        cx.sink.clear();
+        cx.hlog.clear();
     }
     // a macro on a thread spawned after the set
     if !unset {
